@@ -30,7 +30,7 @@ std::map<std::string, double> concreteVals; bool concreteMode = false;
 std::string dec; size_t dpos = 0; std::string taken;
 long nq = 0, nqsat = 0, nqunsat = 0, nqunk = 0; double qsec = 0; size_t maxpc = 0;
 long nassert = 0, nok = 0, nviol = 0, nunk = 0;
-bool done = false; bool chkdiv = true; bool nomerge = false; bool gap = false; unsigned qtimeout = 10000; double tol = 1e-9;
+bool nameDiv = false; bool done = false; bool chkdiv = true; bool nomerge = false; bool gap = false; unsigned qtimeout = 10000; double tol = 1e-9;
 FILE *out = nullptr; std::string outdir;
 std::map<std::string, long> notes; std::vector<std::string> events;
 std::map<std::string, std::pair<long,long>> acount;   // assertion id -> (ok, notok)
@@ -182,7 +182,11 @@ void obligation(const z3::expr &a0, const char *id) {
   if (a.is_false()) { ensureModel(); recordAssert(id, 1, &na, curModel); return; }
   z3::model *m = nullptr; int r = check(&na, &m);
   if (r == 0) recordAssert(id, 0, nullptr, nullptr);
-  else if (r == 1 && m && validate(m, na)) recordAssert(id, 1, &na, m);
+  else if (r == 1 && m && validate(m, na)) {
+    /* prefer a counterexample of moderate magnitude (replays in floating point without overflow) */
+    for (double B : {64.0, 1e6}) { z3::expr_vector v(ctx); v.push_back(na); for (auto &in : inputs) { v.push_back(in.e <= constTerm(B)); v.push_back(in.e >= constTerm(-B)); }
+      z3::expr all = z3::mk_and(v); z3::model *m2 = nullptr; int r2 = check(&all, &m2, 3000); if (r2 == 1 && m2 && validate(m2, na)) { delete m; m = m2; break; } if (m2) delete m2; }
+    recordAssert(id, 1, &na, m); }
   else recordAssert(id, 2, &na, nullptr);
   if (m) delete m;
 }
@@ -205,6 +209,7 @@ struct Init { Init() {
   const char *od = getenv("SLUSYM_QDIR"); if (od) outdir = od;
   const char *q = getenv("SLUSYM_QTIMEOUT_MS"); if (q) qtimeout = atoi(q);
   const char *cd = getenv("SLUSYM_CHKDIV"); if (cd) chkdiv = atoi(cd) != 0;
+  const char *nd = getenv("SLUSYM_NAMEDIV"); if (nd) nameDiv = atoi(nd) != 0;
   const char *nm = getenv("SLUSYM_NOMERGE"); if (nm) nomerge = atoi(nm) != 0;
   const char *tl = getenv("SLUSYM_TOL"); if (tl) tol = atof(tl);
   const char *cv = getenv("SLUSYM_VALUES");
@@ -241,10 +246,20 @@ static bool exactBin(int op, double a, double b, double *res) {
     default: return b != 0 && fma(-r, b, a) == 0 && (r != 0 || a == 0);
   }
 }
-static z3::expr binTerm(int op, const z3::expr &x, const z3::expr &y) { switch (op) { case 0: return x + y; case 1: return x - y; case 2: return x * y; default: return x / y; } }
+static std::map<std::pair<unsigned, unsigned>, unsigned> divCache;
+static z3::expr binTerm(int op, const z3::expr &x, const z3::expr &y) { switch (op) { case 0: return x + y; case 1: return x - y; case 2: return x * y; default:
+    if (nameDiv && !y.is_numeral()) {   /* purify: q with q*y == x (y != 0 is checked separately by divCheck; a possibly-zero divisor is an event) */
+      auto key = std::make_pair(x.id(), y.id()); auto it = divCache.find(key); if (it != divCache.end()) return T[it->second];
+      z3::expr q = ctx.real_const(("div!" + std::to_string(divCache.size())).c_str()); PC.push_back(q * y == x); PC.push_back(y != 0); setModel(nullptr); T.push_back(q); divCache[key] = T.size() - 1; return q; }
+    return x / y; } }
 static void divCheck(const z3::expr &y) {
   if (!chkdiv) return; z3::expr z = (y == 0); z3::expr zs = z.simplify(); if (zs.is_false()) return;
-  if (zs.is_true() || (decided.find(zs.id()) == decided.end() && check(&z, nullptr) != 0)) { emit("{\"k\":\"E\",\"ev\":\"div-by-possibly-zero\",\"block\":" + std::to_string(curBlock) + ",\"path\":\"" + taken + "\"}"); event("div0"); }
+  if (zs.is_true()) { emit("{\"k\":\"E\",\"ev\":\"div-by-zero\",\"block\":" + std::to_string(curBlock) + ",\"path\":\"" + taken + "\"}"); event("div0"); return; }
+  if (decided.find(zs.id()) != decided.end()) return;
+  z3::model *m = nullptr; int r = check(&z, &m, qtimeout / 2);
+  if (r == 1 && m && validate(m, z)) { emit("{\"k\":\"E\",\"ev\":\"div-by-possibly-zero\",\"block\":" + std::to_string(curBlock) + ",\"path\":\"" + taken + "\",\"model\":" + modelJson(m) + "}"); event("div0"); }
+  else if (r != 0) event("div0-undecided");
+  if (m) delete m;
 }
 double __sym_bin_d(int op, double a, double b) {
   bool conc = !isboxd(a) && !isboxd(b);
